@@ -132,6 +132,14 @@ func (d *dispatcher) Dispatch(msg *pb.XuperMessage, stream Stream) error {
 		return ErrNotRegister
 	}
 
+	// claim the message before the handlers run: an overlapping Dispatch of the same message
+	// (the same block or tx arriving from two peers at once) must not deliver it a second time
+	if err := d.handled.Add(MessageKey(msg), true, time.Duration(3)*time.Second); err != nil {
+		d.mu.RUnlock()
+		ctx.GetLog().SetInfoField("handled", true)
+		return nil
+	}
+
 	var wg sync.WaitGroup
 	for sub, _ := range d.mc[msg.GetHeader().GetType()] {
 		if !sub.Match(msg) {
